@@ -146,6 +146,57 @@ def direct(run, chk):
         if nbad <= 5:
             chk.violation("%s_%d" % (r[0].replace("-", "_"), nbad), {"kind": "program", "source": src, "what": r[0] + ": " + str(r[1]), "unrolled_text": r[3]})
     direct.tally = tally
+    # the hypothesis of the fixpoint theorem (Props/C03.v C03_wellformed_flat_program_is_accepted_and_a_fixpoint), evaluated
+    # on the real outputs: a well-formed output that does not load again or is changed by a second unroll is a failure
+    # of the property shown twice (by the run above and by the theorem through the model)
+    idx = [i for i, (o, r) in enumerate(zip(run.outcomes, res)) if o.get("unroll") == "ok" and o.get("stmts_term") and r[0] not in ("rejected", "unconvertible")]
+    idx = idx[: (400 if chk.tier == "quick" else 4000)]
+    wf = wellformed([run.outcomes[i]["stmts_term"] for i in idx])
+    wft = {"well-formed": 0, "not-well-formed": 0, "not-evaluated": 0, "not-well-formed-by-known-shape": {}}
+    for i, w in zip(idx, wf):
+        if w is None:
+            wft["not-evaluated"] += 1
+        elif w:
+            wft["well-formed"] += 1
+            if res[i][0] != "ok" and nbad < 8:
+                nbad += 1
+                chk.violation("wellformed_output_%s_%d" % (res[i][0].replace("-", "_"), nbad),
+                              {"kind": "program", "source": srcs[i], "what": "the unrolled output is a well-formed flat program (the model accepts it and unrolls it to itself, Props/C03.v) but the implementation: %s: %s" % (res[i][0], res[i][1]),
+                               "unrolled_text": res[i][3] if len(res[i]) > 3 else None})
+        else:
+            wft["not-well-formed"] += 1
+            k = res[i][2] if len(res[i]) > 2 and res[i][2] else ("reloads-fine" if res[i][0] == "ok" else res[i][0])
+            wft["not-well-formed-by-known-shape"][k] = wft["not-well-formed-by-known-shape"].get(k, 0) + 1
+            if k == "reloads-fine" and len(wft.setdefault("examples-not-well-formed-but-fine", [])) < 3:
+                wft["examples-not-well-formed-but-fine"].append(srcs[i])
+    direct.wf = wft
+
+
+def wellformed(terms):
+    """wf_flat env0 (coq/Lang/FixProofs.v) evaluated by coqc on real unrolled outputs (Gallina terms): list of bool | None"""
+    import os
+    import re
+    import subprocess
+    import langcorr
+    d = common.run_dir()
+    res = [None] * len(terms)
+    shard = 150
+    procs = []
+    for k in range(0, len(terms), shard):
+        f = os.path.join(d, "wf_%d.v" % (k // shard))
+        with open(f, "w") as fh:
+            fh.write(langcorr.HEADER.replace("Unroll Corr", "Unroll FixProofs"))
+            fh.write("Eval vm_compute in (map (wf_flat env0)\n [%s]).\n" % ";\n  ".join(terms[k:k + shard]))
+        procs.append((k, subprocess.Popen(["timeout", "600", "coqc", "-Q", common.COQ, "Verif", f], stdout=subprocess.PIPE, stderr=subprocess.PIPE, text=True)))
+    for k, p in procs:
+        so, se = p.communicate()
+        if p.returncode != 0:
+            continue
+        vals = re.findall(r"\b(true|false)\b", so.split("= [", 1)[-1].split("]")[0]) if "= [" in so else []
+        if len(vals) == len(terms[k:k + shard]):
+            for j, v in enumerate(vals):
+                res[k + j] = (v == "true")
+    return res
 
 
 def run(tier, seed, replay):
@@ -153,4 +204,5 @@ def run(tier, seed, replay):
         return langcheck.replay_cmd(PROP, replay)
     direct.tally = {}
     return langcheck.standard(PROP, tier, seed, cases(tier, seed), classify, direct=direct,
-                              extra_cov=lambda run: {"reload_fixpoint_clauses_on_real_output": direct.tally})
+                              extra_cov=lambda run: {"reload_fixpoint_clauses_on_real_output": direct.tally,
+                                                     "fixpoint_theorem_hypothesis_on_real_output": getattr(direct, "wf", {})})
